@@ -115,6 +115,9 @@ type Reply struct {
 }
 
 // Do runs one request through the handler, recovering panics.
+// NoHost as HTTPReq.Host: the request carries no Host header at all (legal in HTTP/1.0); r.Host is then empty.
+const NoHost = "\x00no-host-header"
+
 func Do(h http.Handler, r HTTPReq) (rep Reply) { return DoOpt(h, r, Opt{}) }
 
 func DoOpt(h http.Handler, r HTTPReq, o Opt) (rep Reply) {
@@ -134,6 +137,9 @@ func DoOpt(h http.Handler, r HTTPReq, o Opt) (rep Reply) {
 		Host:       host,
 		RequestURI: r.Path,
 		RemoteAddr: "192.0.2.1:1234",
+	}
+	if r.Host == NoHost {
+		req.Host, req.Proto, req.ProtoMajor, req.ProtoMinor = "", "HTTP/1.0", 1, 0
 	}
 	if r.RawQuery != "" {
 		req.RequestURI += "?" + r.RawQuery
